@@ -11,9 +11,38 @@ Observed structures are returned as JSON:
 """
 from __future__ import annotations
 
+import resource
+import signal
 import sys
 
 sys.setrecursionlimit(20000)
+
+CASE_SECONDS = 20
+MEM_BYTES = 4 * 1024**3
+
+
+class CaseTimeout(Exception):
+    pass
+
+
+def _limits():
+    """bound the worker: 4 GB address space, and a per-case alarm (a case normally takes milliseconds)"""
+    try:
+        resource.setrlimit(resource.RLIMIT_AS, (MEM_BYTES, MEM_BYTES))
+    except (ValueError, OSError):
+        pass
+
+    def _alarm(signum, frame):
+        raise CaseTimeout()
+    signal.signal(signal.SIGALRM, _alarm)
+
+
+def _arm():
+    signal.setitimer(signal.ITIMER_REAL, CASE_SECONDS)
+
+
+def _disarm():
+    signal.setitimer(signal.ITIMER_REAL, 0)
 
 
 def assignments(n):
@@ -153,16 +182,33 @@ def run_pred(payload):
         if t == "n":
             p = build(f[1], flags, steps)
             del rec[:]
+            # NOT of k groups of sizes s_i yields prod(s_i) groups of k literals: refuse before computing
+            pred_groups = 1
+            for g in p.operands:
+                pred_groups *= max(len(g), 1)
+                if pred_groups * max(len(p.operands), 1) > maxlit:
+                    raise TooBig()
             r = p.logical_not()
-            if size(r) > maxlit:
-                raise TooBig()
             if steps is not None:
                 steps.append({"op": "not", "self": cnf_json(p.operands), "args": [], "flags": [], "res": cnf_json(r.operands),
                               "tv": table(r)})
             return r
         if t in "&|":
-            ps = [build(g, flags, steps) for g in f[1:]]
+            # structurally equal operands of one call are the SAME Predicate object (p.logical_and(q, p)):
+            # this is what reaches the `a is b` branch of _impl_and
+            ps = []
+            for j, g in enumerate(f[1:]):
+                k = next((i for i in range(j) if f[1 + i] == g), None)
+                ps.append(ps[k] if k is not None else build(g, flags, steps))
             del rec[:]
+            if t == "|":
+                # OR is the product of the group lists
+                ngroups, width = 1, 0
+                for q in ps:
+                    ngroups *= len(q.operands)
+                    width += max((len(g) for g in q.operands), default=0)
+                if ngroups * max(width, 1) > maxlit:
+                    raise TooBig()
             if t == "&":
                 r = ps[0].logical_and(*ps[1:])
                 fl = list(rec) if len(rec) == len(ps) - 1 else None
@@ -183,8 +229,10 @@ def run_pred(payload):
         return "".join(p.visit(Eval(v)) for v in asg)
 
     out = []
+    _limits()
     for f in payload["formulas"]:
         try:
+            _arm()
             flags: list = []
             steps = [] if want_steps else None
             p = build(f, flags, steps)
@@ -195,10 +243,16 @@ def run_pred(payload):
             out.append(o)
         except TooBig:
             out.append({"skip": "too big"})
+        except MemoryError:
+            out.append({"skip": "memory"})
+        except CaseTimeout:
+            out.append({"error": "Timeout", "msg": f"more than {CASE_SECONDS} s for a result bounded by {maxlit} literals"})
         except RecursionError:
             out.append({"error": "RecursionError"})
         except Exception as e:  # noqa: BLE001
             out.append({"error": err_class(e), "msg": str(e)[:200]})
+        finally:
+            _disarm()
     return out
 
 
@@ -305,8 +359,10 @@ def run_nf(payload):
     asg = assignments(payload["n"])
     parser = None
     out = []
+    _limits()
     for c in payload["cases"]:
         try:
+            _arm()
             if c.get("parse"):
                 parser = parser or ParserYacc()
                 root = parser.parse(to_text(c["f"]))
@@ -327,8 +383,14 @@ def run_nf(payload):
                 "str": str(tree)[:300],
             }
             out.append(o)
+        except MemoryError:
+            out.append({"skip": "memory"})
+        except CaseTimeout:
+            out.append({"error": "Timeout", "msg": f"more than {CASE_SECONDS} s to normalise a tree of at most a dozen leaves"})
         except RecursionError:
             out.append({"error": "RecursionError"})
         except Exception as e2:  # noqa: BLE001
             out.append({"error": err_class(e2), "msg": str(e2)[:200]})
+        finally:
+            _disarm()
     return out
